@@ -617,11 +617,18 @@ var xmlOpenTag = regexp.MustCompile(`<([A-Za-z_][A-Za-z0-9_]*)`)
 
 func (c *Ctx) phyloxmlTables() {
 	wc := c.Func("io/phyloxml", "", "writeClade")
-	wp := c.Func("io/phyloxml", "", "writePhylogeny")
 	ww := c.Func("io/phyloxml", "", "WritePhyloXML")
 	rd := c.Func("io/phyloxml", "", "cladeToTree")
-	if wc == nil || wp == nil || ww == nil || rd == nil {
+	if wc == nil || ww == nil || rd == nil {
 		return
+	}
+	// the writer = WritePhyloXML and every function of the package it reaches (writePhylogeny may be
+	// inlined or split further without changing what is written)
+	writerFuncs := []*FuncInfo{wc, ww}
+	for _, fi := range c.cone([]*FuncInfo{ww}, 4) {
+		if fi.Pkg == ww.Pkg && fi.Obj != wc.Obj && fi.Obj != ww.Obj {
+			writerFuncs = append(writerFuncs, fi)
+		}
 	}
 	info := wc.Pkg.TypesInfo
 	clause := "Converting a tree between Newick, Nexus and PhyloXML and back gives the same tree: shape, names, lengths and supports"
@@ -689,7 +696,7 @@ func (c *Ctx) phyloxmlTables() {
 		call *ast.CallExpr
 	}
 	var written []wtag
-	for _, fi := range []*FuncInfo{wc, wp, ww} {
+	for _, fi := range writerFuncs {
 		ast.Inspect(fi.Decl.Body, func(n ast.Node) bool {
 			lit, ok := n.(*ast.BasicLit)
 			if !ok || lit.Kind != token.STRING {
